@@ -198,14 +198,22 @@ func refersTo(repo *repository, iter descIter, digest ociregistry.Digest) (found
 			if b == nil {
 				break
 			}
-			miter, err := manifestReferences(info.desc.MediaType, b.data)
-			if err != nil {
-				retErr = err
-				return false
+			// Follow the references under the media type the manifest is
+			// stored with as well as the one the referring descriptor claims.
+			mediaTypes := []string{info.desc.MediaType}
+			if b.mediaType != info.desc.MediaType {
+				mediaTypes = append(mediaTypes, b.mediaType)
 			}
-			found, retErr = refersTo(repo, miter, digest)
-			if found || retErr != nil {
-				return false
+			for _, mediaType := range mediaTypes {
+				miter, err := manifestReferences(mediaType, b.data)
+				if err != nil {
+					retErr = err
+					return false
+				}
+				found, retErr = refersTo(repo, miter, digest)
+				if found || retErr != nil {
+					return false
+				}
 			}
 		}
 		return true
